@@ -79,6 +79,17 @@ MUTANTS = [
      "    diff = limit - param\n    return torch.heaviside(diff, zeros(diff, shape=())) * update", "    diff = limit - param\n    return torch.heaviside(diff + 0.05, zeros(diff, shape=())) * update"),
     ("bound_smult_range_ignored", "C10", 2000, "inferno/functional/bounding.py",
      "    return (limit - param) / range * update", "    return (limit - param) / max(range, 1.0) * update"),
+    ("syn_clamp_uses_recordsz", "C04", 3000, "inferno/neural/synapses/mixins.py",
+     "        bounded_selector = selector.clamp(min=0, max=value.duration)", "        bounded_selector = selector.clamp(min=0, max=value.dt * value.recordsz)"),
+    ("syn_overbound_strict", "C04", 3000, "inferno/neural/synapses/mixins.py",
+     "            (selector - bounded_selector).abs() <= tolerance, res, overbound", "            (selector - bounded_selector).abs() < tolerance, res, overbound"),
+    ("syn_exp_decay_uses_tau_wrong", "C04", 3000, "inferno/neural/synapses/expcurrent.py",
+     "            self.current * math.exp(-self.dt / self.time_constant)\n            + (self.spike_charge / self.time_constant) * inputs[0]",
+     "            self.current * math.exp(-self.dt / self.time_constant)\n            + (self.spike_charge / self.time_constant) * inputs[0] * min(1.0, self.time_constant / self.dt * 4)"),
+    ("syn_dexp_clear_forgets_neg", "C04", 3000, "inferno/neural/synapses/expcurrent.py",
+     "        self.pos_current_.reset(0.0)\n        self.neg_current_.reset(0.0)", "        self.pos_current_.reset(0.0)"),
+    ("syn_deltaplus_inject_dropped_when_spike", "C04", 3000, "inferno/neural/synapses/current.py",
+     "        self.current = sum((inputs[0] * (self.spike_charge / self.dt), *inputs[1:]))", "        self.current = sum((inputs[0] * (self.spike_charge / self.dt), *[i * (inputs[0] == 0) for i in inputs[1:]]))"),
     ("resize_keeps_head", "C13", 3000, INFRA,
      "            slices[dim] = slice(tensor.shape[dim] - size, None)\n            return tensor[*slices]", "            slices[dim] = slice(None, size)\n            return tensor[*slices]"),
     ("resize_no_align", "C13", 3000, INFRA,
